@@ -892,6 +892,11 @@ func (t *txbGen) burst() {
 				tot += c.amt
 			}
 			if tot > 300000000 {
+				// the ceiling itself is allowed, one maxwell more is not
+				l.op("apiauto-feelimit-edge", "apiauto %s %d 0 - - %s:%d", w, 100000000+int64(r.Intn(2)), l.stranger(), 1+r.Int63n(tot/8))
+				l.op("judge", "judge")
+				l.op("sums", "sums")
+				l.op("signfail", "signfail %d", 1+t.drafts)
 				l.op("apiauto-bigfee", "apiauto %s %d 0 - - %s:%d", w, 100000001+r.Int63n(100000000), l.stranger(), 1+r.Int63n(tot/4))
 				l.op("apiauto-after-bigfee", "apiauto %s %d 0 - - %s:%d", w, 20000, l.stranger(), tot-tot/8)
 				t.drafts++
